@@ -832,3 +832,56 @@ def r9(R):
     R.require(n >= 5, 'expected the record checks of read_index, '
               '_check_sanity, the record iterator, checkData and fstest; '
               'found %d' % n)
+
+
+# ------------------------------------------------------------------ C17.R10
+@rule('C17.R10', 'while a transaction is iterated, a backpointer chain that '
+      'ends in an un-creation record is followed without failing: every '
+      'chain walk made on behalf of the record iterator passes fail=False',
+      props=['C04'], min_instances=1)
+def r10(R):
+    cls = R.prog.cls(TRI)
+    f = R.method(cls, '__next__')
+    g, b, F = R.cfg(f, cls, max_depth=4)
+    n = 0
+    seenf = set()
+    for node in (g.nodes[i] for i in g.reachable()):
+        fr = node.frame
+        if fr is None or fr.func.name != '_loadBack_impl' or fr.id in seenf:
+            continue
+        seenf.add(fr.id)
+        n += 1
+        bd = fr.bindings.get('fail')
+        chain = []
+        x = fr
+        while x is not None:
+            chain.append(x.func.name)
+            x = x.parent
+        R.instance('chain walk via ' + ' <- '.join(chain))
+        ok = False
+        if bd is not None and bd[2] != 'default' and bd[0] is not None:
+            e, pf = bd[0], bd[1]
+            # resolve through pass-through parameters of the callers
+            depth = 0
+            while isinstance(e, ast.Name) and pf is not None and \
+                    e.id in pf.bindings and depth < 4:
+                b2 = pf.bindings[e.id]
+                if b2[0] is None:
+                    break
+                e, pf, depth = b2[0], b2[1], depth + 1
+            ok = isinstance(e, ast.Constant) and e.value in (False, 0)
+        if not ok:
+            call = fr.call_stmt if hasattr(fr, 'call_stmt') else None
+            R.violation(
+                (f.module.relpath, f.qualname,
+                 'chain walk via ' + ' <- '.join(chain), None),
+                'the record iterator reaches _loadBack_impl (%s) with '
+                'fail left at True: for a record whose backpointer chain '
+                'ends in an un-creation record (create, undo, redo, undo) '
+                'the walk raises POSKeyError, so iterator() and '
+                'copyTransactionsFrom stop in the middle of the history '
+                'instead of yielding the record with data None'
+                % ' <- '.join(chain), key='chain walk that fails on '
+                'un-creation: ' + ' <- '.join(chain))
+    R.require(n >= 1, 'the record iterator no longer walks backpointer '
+              'chains')
